@@ -41,7 +41,10 @@ def asm_controls():
     vs[4]["symtab"][0]["v"] += 1                      # symbol value
     vs[5]["image"][2] ^= 0x10                         # image byte
     vs[6]["obs"][4]["bytes"][-1] = (vs[6]["obs"][4]["bytes"][-1] + 1) & 255  # PCR displacement
+    rej = dict(copy.deepcopy(t), id=7, outcome="translation", obs=[], image=[], symtab=[], diag_k=2, diag_named=True)     # a valid program reported as rejected
+    vs.append(rej)
     verd, _ = tlc.bulk("Tr_Asm", vs, nproc=1)
+    expect("Tr_Asm rejects a diagnostic for a valid program (accepted)", "accepted" in clauses(verd[7]), str(clauses(verd[7])))
     expect("Tr_Asm accepts the recorded assembly", clauses(verd[0]) == [], str(verd[0]["items"])[:200])
     for k, want in ((1, "enc"), (2, "enc"), (3, "placed"), (4, "symtab"), (5, "image"), (6, "enc")):
         expect("Tr_Asm rejects corruption %d with clause %s" % (k, want), want in clauses(verd[k]), str(clauses(verd[k])))
